@@ -79,13 +79,53 @@ Theorem c03_commit_missing_l s u x nrev nfsize nmroot : reach s ->
 Proof. intros H. apply (commit_missing_rejected meta). now apply reach_inv. Qed.
 
 Theorem c03_revise2_accepted_l s id e c newroots : reach s ->
-  alookup id (t2 (dbs s)) = Some e -> rto e = None ->
+  alookup id (t2 (dbs s)) = Some e -> rto e = None -> mem id (rejd (dbs s)) = false ->
   rk e = r2_rk c -> hk e = r2_hk c -> wstart e = r2_ph c -> expi e = r2_exp c ->
   r2_fsize c = sector_size * nlen newroots -> r2_fsize c <= r2_cap c ->
   r2_mroot c = meta newroots -> all_stored (stored (dbs s)) newroots = true ->
   snd (step s (Revise2 id c newroots (meta newroots) true true None)) = ORes (Ok tt) /\
   cache_get (fst (step s (Revise2 id c newroots (meta newroots) true true None))) id = newroots.
 Proof. intros H. apply (revise2_accepted meta). now apply reach_inv. Qed.
+
+(* what a rejected v2 contract refuses (7f58b1d, fixes/C03-v2-rejected-contract-not-revisable.patch): in ANY
+   state in which RejectContracts has marked it, ReviseV2Contract and RenewV2Contract — whatever the revision,
+   the roots, the signatures, the transaction set, a store failure at any statement — answer an error and
+   change nothing, and LockV2Contract reports it not revisable *)
+Theorem rejected2_refuses_l s id : mem id (rejd (dbs s)) = true ->
+  (forall c l m a b f, exists r, step s (Revise2 id c l m a b f) = (s, ORes r) /\ r <> Ok tt) /\
+  (forall new c m wf f, exists r, step s (Renew2 id new c m wf f) = (s, ORes r) /\ r <> Ok tt) /\
+  (forall r rn rv l, snd (step s (Lock2 id)) = OLock2 (Ok (r, rn, rv, l)) -> rv = false).
+Proof.
+  intros Rj. repeat split.
+  - intros c l m a b f. cbn [step]. unfold outcome.
+    destruct (m_revise2 s id c l m a b f) as [[d k]|e|] eqn:E.
+    + exfalso. unfold m_revise2, mbind in E.
+      destruct (store_get (t2 (dbs s)) id f) as [[e0 k0]| |]; try discriminate.
+      destruct (opt_is_some (rto e0)); [discriminate|]. rewrite Rj in E. discriminate.
+    + exists (Err e). split; [reflexivity|discriminate].
+    + exists Panic. split; [reflexivity|discriminate].
+  - intros new c m wf f. cbn [step]. unfold outcome.
+    destruct (m_renew2 s id new c m wf f) as [[d k]|e|] eqn:E.
+    + exfalso. unfold m_renew2 in E. destruct (negb wf); [discriminate|]. unfold mbind in E.
+      destruct (store_get (t2 (dbs s)) id f) as [[e0 k0]| |]; try discriminate.
+      rewrite Rj in E. discriminate.
+    + exists (Err e). split; [reflexivity|discriminate].
+    + exists Panic. split; [reflexivity|discriminate].
+  - intros r rn rv l. cbn [step]. destruct (mem id (locks s)); [discriminate|].
+    destruct (alookup id (t2 (dbs s))); [|discriminate]. cbn [snd]. rewrite Rj. cbn [negb].
+    intros [= _ _ <- _]. now rewrite andb_false_r.
+Qed.
+
+(* RejectContracts writes the status and nothing else *)
+Theorem reject_keeps_lists_l s ids :
+  let s' := fst (step s (Reject ids)) in
+  t1 (dbs s') = t1 (dbs s) /\ t2 (dbs s') = t2 (dbs s) /\ cache s' = cache s /\ nsec (dbs s') = nsec (dbs s) /\
+  stored (dbs s') = stored (dbs s) /\ located (dbs s') = located (dbs s) /\
+  forall id, mem id ids = true -> mem id (rejd (dbs s')) = true.
+Proof.
+  cbn [step fst dbs set_dbs set_rejd t1 t2 cache nsec stored located rejd]. repeat split.
+  intros id M. unfold mem in *. rewrite existsb_app. apply orb_true_iff. now left.
+Qed.
 
 (* the updater's working list is the fold of the actions it accepted since the last commit *)
 Theorem c03_updater_l s u x : reach s -> alookup u (upds s) = Some x ->
